@@ -376,6 +376,9 @@ impl<T: Qcow2IoOps> Qcow2Dev<T> {
                 // on-disk l1 table yet anyway).
                 let l2_cluster = l2_table.get_offset().unwrap() >> info.cluster_bits();
                 if !self.cluster_is_new(l2_cluster).await {
+                    // a concurrent flush may have written the refcounts
+                    // without having synced them yet
+                    self.call_fsync(0, usize::MAX, 0).await?;
                     self.flush_table(&*l2_table, 0, l2_table.byte_size())
                         .await?;
                     l2_handle.set_dirty(false);
